@@ -25,7 +25,7 @@ ASSUMPTIONS = [
     "restricts clause (b) to the checksummed framings)",
 ]
 MUST = ["reassembled_while_another_caller_queued", "reassembled_after_corrupt_answer", "reassembled_rtu", "reassembled_tcp", "reassembled_aa55", "partial_branch", "leftover_cleared", "late_second_piece",
-        "wrong_second_piece_refused", "foreign_datagram_between_fragments", "both_pieces_delayed"]
+        "wrong_second_piece_refused", "foreign_datagram_between_fragments", "both_pieces_delayed", "two_objects_fragmented"]
 EXHAUSTIVE = {"quick": False, "thorough": True}
 EPS = 1e-6
 KINDS = ["exact", "plus1", "minus1", "corrupt", "other_answer", "other_remainder", "none", "plus1_then_exact", "junk_then_exact"]
@@ -212,6 +212,57 @@ def concurrent_case(framing, ka, T, count, k, d, b_start, part):
         part.violate(key, msg, {"concurrent": True, "args": [framing, ka, T, count, k, d, b_start]})
 
 
+def two_objects_case(fam, ka, k, gap, off_b, part):
+    """two inverter OBJECTS of one family, each with its own inverter answering in two pieces, polled at the same time: each must
+    reassemble its own answer (one transmission per request, own values)"""
+    import asyncio
+    from .. import env, models
+    g = env.goodwe()
+    import random as _r
+    sa, sb = models.family_sim(fam, "invA", rnd=_r.Random(1), style="random"), models.family_sim(fam, "invB", rnd=_r.Random(2), style="random")
+    for sm in (sa, sb):
+        sm.delay, sm.frag = 0.1, (k, gap)
+    out = {}
+
+    async def flow(loop):
+        A, B = models.family_cls(g, fam)("invA", 8899, 0, 1, 2), models.family_cls(g, fam)("invB", 8899, 0, 1, 2)
+        for inv in (A, B):
+            inv.set_keep_alive(ka)
+            await inv.read_device_info()
+        na, nb = len(sa.log) + len(getattr(sa, "aa55_log", [])), len(sb.log) + len(getattr(sb, "aa55_log", []))
+
+        async def poll(inv, name, start):
+            await asyncio.sleep(start)
+            try:
+                out[name] = await inv.read_runtime_data()
+            except Exception as e:      # noqa
+                out[name] = type(e).__name__
+        await asyncio.gather(poll(A, "A", 0.0), poll(B, "B", off_b))
+        out["ntx"] = (len(sa.log) + len(getattr(sa, "aa55_log", [])) - na, len(sb.log) + len(getattr(sb, "aa55_log", [])) - nb)
+        # reference: the same polls one after the other
+        out["refA"] = await A.read_runtime_data()
+        out["refB"] = await B.read_runtime_data()
+        out["nref"] = (len(sa.log) + len(getattr(sa, "aa55_log", [])) - na - out["ntx"][0], len(sb.log) + len(getattr(sb, "aa55_log", [])) - nb - out["ntx"][1])
+
+    run = engine.run_custom({("invA", 8899): sa, ("invB", 8899): sb}, flow, vtime_cap=600, tx_cap=600)
+    part.evaluations += 1
+    part.see(f"two-objects|{fam}|{ka}|{k}|{gap}|{off_b}")
+    f = "aa55" if fam == "ES" else "rtu"
+    case = {"two_objects": True, "args": [fam, ka, k, gap, off_b]}
+    if run.stop or run.error is not None:
+        part.violate(f"C07/{f}/hang", f"two {fam} objects, fragmented answers: {run.stop or repr(run.error)}", case)
+        return
+    for name, ref, i in (("A", "refA", 0), ("B", "refB", 1)):
+        if not isinstance(out.get(name), dict) or out["ntx"][i] != out["nref"][i] or \
+                {k_: str(v) for k_, v in out[name].items() if k_ != "timestamp"} != {k_: str(v) for k_, v in out[ref].items() if k_ != "timestamp"}:
+            part.violate(f"C07/{f}/exact-fragments-not-reassembled",
+                         f"two {fam} inverter objects polled at the same time, each inverter answering in two pieces (split {k}, {gap} s apart, B starts "
+                         f"{off_b} s after A): object {name} needed {out['ntx'][i]} transmissions (alone: {out['nref'][i]}) / returned "
+                         f"{'other values' if isinstance(out.get(name), dict) else out.get(name)}", case)
+            return
+    part.count("two_objects_fragmented")
+
+
 def frame_len(framing, count, aa55_len):
     return {"rtu": 7 + 2 * count, "tcp": 9 + 2 * count, "aa55": 9 + aa55_len}[framing]
 
@@ -238,6 +289,10 @@ def run_shard(spec):
     part = Part()
     f = spec["framing"]
     T = 1
+    if spec["counts"] and spec["counts"][0] in (1, 62) or (f == "aa55" and spec.get("aa55_len") in (0, 40)):
+        for fam in (("ES",) if f == "aa55" else ("ET", "DT") if f == "rtu" else ()):
+            for k, gap, off_b in ((9, 0.04, 0.12), (9, 0.04, 0.0), (12, 0.3, 0.2), (20, 0.05, 0.11)):
+                two_objects_case(fam, spec["ka"], k, gap, off_b, part)
     if f != "aa55" and spec["counts"] and spec["counts"][0] in (1, 62):
         for count in (2, 10):
             L = frame_len(f, count, 0)
@@ -278,6 +333,9 @@ def run_shard(spec):
 
 def replay(case):
     part = Part()
+    if case.get("two_objects"):
+        two_objects_case(*case["args"], part)
+        return [{"key": v["key"], "msg": v["msg"]} for v in part.violations]
     if case.get("concurrent"):
         concurrent_case(*case["args"], part)
         return [{"key": v["key"], "msg": v["msg"]} for v in part.violations]
